@@ -109,6 +109,24 @@ Theorem final_delimiter_through_empty_item : forall o vals,
 Proof. exact list_post_final_none. Qed.
 Print Assumptions final_delimiter_through_empty_item.
 
+(* round 5 (seeded change C05-m9): a text made of delimiters only - k delimiters separate
+   k + 1 (empty) items.  In a list that does not allow a final delimiter (every bracket-less
+   list unless asked otherwise) none of them is dropped; only the SINGLE None of the empty
+   text of a bracket-less list is no item *)
+Theorem delimiters_only_items_kept : forall o n,
+  lo_afd o = false -> list_post o (CNone :: CNone :: repeat CNone n) = CNone :: CNone :: repeat CNone n.
+Proof.
+  intros o n H. apply list_post_id; [left; exact H|right; discriminate].
+Qed.
+Print Assumptions delimiters_only_items_kept.
+
+Theorem empty_text_is_empty_list : forall o,
+  lo_open o = None -> list_post o [CNone] = [].
+Proof.
+  intros o H. unfold list_post. simpl. rewrite H. simpl. destruct (lo_afd o); reflexivity.
+Qed.
+Print Assumptions empty_text_is_empty_list.
+
 (* the (delimiter,) production contributes no item: a final delimiter adds nothing *)
 Theorem final_delimiter_adds_nothing : forall result o d dl,
   lopts_ok result o -> lo_delim o = Some d -> rname dl = d ->
